@@ -1,4 +1,4 @@
-(** [inline_groups] and [desugar_flags] (analyzer.rs 1767-1895).
+(** [inline_groups] and [desugar_flags] (analyzer.rs 1777-1905).
 
     The site-aware versions ([inline_groups_r], [desugar_flags_r]) return [pres]:
     a value, or the [unwrap()] that fails, named "<line>:<function>:<expression>"
@@ -38,9 +38,9 @@ Fixpoint pmap {A B} (f : A -> pres B) (l : list A) : pres (list B) :=
       POk (y :: r)
   end.
 
-(** ** desugar_flags (1864-1895) *)
+(** ** desugar_flags (1874-1905) *)
 
-(** The first loop (1871-1879): for every optional field, in field order, the triple
+(** The first loop (1881-1889): for every optional field, in field order, the triple
     (condition id, (field id, condition value)).  [field.id().unwrap()] and
     [cond.value.unwrap()] sit on the same line. *)
 Fixpoint condition_ids (fs : list field) : pres (list (string * (string * N))) :=
@@ -51,10 +51,10 @@ Fixpoint condition_ids (fs : list field) : pres (list (string * (string * N))) :
       | None => condition_ids rest
       | Some c =>
           match field_id f with
-          | None => PPanic "1877:desugar_flags:field.id().unwrap()"
+          | None => PPanic "1887:desugar_flags:field.id().unwrap()"
           | Some fid =>
               match c_value c with
-              | None => PPanic "1877:desugar_flags:cond.value.unwrap()"
+              | None => PPanic "1887:desugar_flags:cond.value.unwrap()"
               | Some v =>
                   let! r := condition_ids rest in
                   POk ((c_id c, (fid, v)) :: r)
@@ -69,7 +69,7 @@ Definition optional_field_ids (cids : list (string * (string * N))) (id : string
   : list (string * N) :=
   map snd (filter (fun p => String.eqb (fst p) id) cids).
 
-(** The second loop (1881-1890): ANY field whose identifier is used as a condition
+(** The second loop (1891-1900): ANY field whose identifier is used as a condition
     becomes a flag (its own condition is kept). *)
 Definition desugar_field (cids : list (string * (string * N))) (f : field) : field :=
   match field_id f with
@@ -99,7 +99,7 @@ Definition desugar_flags_r (fl : file) : pres file :=
 
 Definition desugar_flags (fl : file) : option file := pres_option (desugar_flags_r fl).
 
-(** ** inline_groups (1768-1860) *)
+(** ** inline_groups (1778-1870) *)
 
 (** [groups.get(group_id)]: the map is collected from the group declarations in file
     order, later ones replacing earlier ones. *)
@@ -113,13 +113,13 @@ Definition cenv := list (string * constr).
 Definition cenv_extend (env : cenv) (cs : list constr) : cenv :=
   (rev (map (fun c => (c_id c, c)) cs) ++ env)%list.
 
-(** [inline_fields] (1769-1813); fuel bounds group nesting ([check_decl_identifiers]
+(** [inline_fields] (1779-1823); fuel bounds group nesting ([check_decl_identifiers]
     has rejected cyclic groups before).  The [flat_map] is lazy and the result is
     collected in order, so the first failing [unwrap] in field order is the panic. *)
 Fixpoint inline_fields_r (depth : nat) (fl : file) (env : cenv) (fs : list field) {struct depth}
   : pres (list field) :=
   match depth with
-  | O => PPanic "1783:inline_fields:fuel (cyclic groups)"
+  | O => PPanic "1793:inline_fields:fuel (cyclic groups)"
   | S depth' =>
       (fix go (fs : list field) : pres (list field) :=
          match fs with
@@ -130,13 +130,13 @@ Fixpoint inline_fields_r (depth : nat) (fl : file) (env : cenv) (fs : list field
                | Group gid gcs =>
                    match lookup_group fl gid with
                    | Some g => inline_fields_r depth' fl (cenv_extend env gcs) (decl_fields g)
-                   | None => PPanic "1783:inline_fields:groups.get(group_id).unwrap()"
+                   | None => PPanic "1793:inline_fields:groups.get(group_id).unwrap()"
                    end
                | Scalar id w =>
                    match assoc id env with
                    | Some c => match c_value c with
                                | Some v => POk [mkField (FixedScalar w v) (f_cond f)]
-                               | None => PPanic "1789:inline_fields:constraints.get(id).unwrap().value.unwrap()"
+                               | None => PPanic "1799:inline_fields:constraints.get(id).unwrap().value.unwrap()"
                                end
                    | None => POk [f]
                    end
@@ -144,7 +144,7 @@ Fixpoint inline_fields_r (depth : nat) (fl : file) (env : cenv) (fs : list field
                    match assoc id env with
                    | Some c => match c_tag c with
                                | Some t => POk [mkField (FixedEnum tid t) (f_cond f)]
-                               | None => PPanic "1803:inline_fields:constraint.tag_id.unwrap()"
+                               | None => PPanic "1813:inline_fields:constraint.tag_id.unwrap()"
                                end
                    | None => POk [f]
                    end
